@@ -205,6 +205,15 @@ def link_pair(ctx, rr):
             if direct:
                 loops.append(f)
         if not loops:
+            # the known wrong form: the per-source list is stored under its key by plain assignment, so a second batch row with the same
+            # (encoded) key replaces the first one instead of extending it - while the inbound side keeps both
+            plain = [a for a in P.own(u, ast.Assign) if any(isinstance(t, ast.Subscript) and isinstance(t.value, ast.Name) and t.value.id == oc for t in a.targets)
+                     and in_loop(P, u, a) is not None]
+            if plain:
+                rr.ob(ctx.where(u, plain[0]), '%s: rows of the same source extend its outbound list' % u.qual, ok=False)
+                rr.fail(ctx.finding('R-LINK-PAIR', u, plain[0], '%s stores the outbound list of a source with `%s`: a later row of the batch with the same key (the same LRU given as text and '
+                                    'as bytes, or repeated) replaces the earlier one, whose links are recorded inbound only' % (u.qual, ast.unparse(plain[0])[:50])))
+                continue
             raise AnalysisError('R-LINK-PAIR: no loop fills the outbound collection `%s` in %s' % (oc, u.qual))
         for f in loops:
             n += 1
